@@ -4,6 +4,8 @@ selftest/mutants/<PROP>-<name>.patch    must be reported by <PROP>'s rules (head
 selftest/refactors/<name>.patch         behaviour-preserving edits: every listed property must stay silent
                                         (header `# props: C01,C05,...`)
 seeded/<id>/patch.diff                  changes written by independent sub-agents (meta.json names the property)
+refactored/<id>/patch.diff              behaviour-preserving changes written by independent sub-agents: EVERY property
+                                        must stay silent
 
 Each patch is applied to a scratch copy of /repo outside /repo and /verif, facts are extracted from
 that copy, the rules run on it, and the copy is removed.  Results never affect a check's exit code:
@@ -99,6 +101,12 @@ def patches_for(prop):
                 props = [x.strip() for x in read_header(p).get("props", "").split(",") if x.strip()]
                 if prop in props:
                     out.append((p, None, True))
+    fd = os.path.join(VERIF, "refactored")
+    if os.path.isdir(fd):
+        for n in sorted(os.listdir(fd)):
+            pp = os.path.join(fd, n, "patch.diff")
+            if os.path.exists(pp):
+                out.append((pp, None, True))        # behaviour-preserving: every property stays silent
     sd = os.path.join(VERIF, "seeded")
     if os.path.isdir(sd):
         for n in sorted(os.listdir(sd)):
@@ -148,8 +156,7 @@ def run_for(prop, ctx=None):
     else:
         for p, prop_, expect, silent in jobs:
             r = check_patch(p, prop_, expect, silent)
-            if "seeded" in p:
-                r["patch"] = "seeded/" + os.path.basename(os.path.dirname(p))
+            r["patch"] = _label(p, r["patch"])
             res.append(r)
     summary = {
         "self_validation": res,
@@ -163,10 +170,17 @@ def run_for(prop, ctx=None):
     return summary
 
 
+def _label(p, name):
+    for top in ("seeded", "refactored"):
+        if os.path.basename(os.path.dirname(os.path.dirname(p))) == top:
+            return top + "/" + os.path.basename(os.path.dirname(p))
+    return name
+
+
 def _worker(args):
     p, prop, expect, silent = args
     r = check_patch(p, prop, expect, silent)
-    r["label"] = r["patch"] if "seeded" not in p else "seeded/" + os.path.basename(os.path.dirname(p))
+    r["label"] = _label(p, r["patch"])
     return r
 
 
